@@ -644,6 +644,9 @@ fn test_acos() {
 /// These functions return the real cube root of ***a***.
 // TODO: fix coeffs
 pub fn cbrt(mut d: P32E2) -> P32E2 {
+    if d.is_nar() || d.is_zero() {
+        return d;
+    }
     let e = kernel::ilogb(d /*.abs()*/) + 1;
     d = kernel::ldexp2(d, -e);
     let r = (e + 6144) % 3;
